@@ -1,7 +1,328 @@
 import ConfModel.Driver.Common
+import ConfModel.Model.DataTracer
+import ConfModel.Spec.Envelopes
+import ConfModel.Model.Builder
+import ConfModel.Spec.Handoff
 namespace ConfModel.Driver.C14
-open Lean ConfModel.Driver
+open Lean ConfModel.Driver ConfModel.DataTracer ConfModel.Envelopes
 
-def handle : Handler := fun op _inp _impl => bad ("C14: unknown op " ++ op)
+def errName : EndErr → String
+  | .nil => "nil"
+  | .inner => "inner"
+  | .other => "other"
+
+/-- same canonical form as `VerifBodyEvents` on the Go side -/
+def render (side : String) : NEv → String
+  | .data none n i => s!"{side}d:-:-:{n}:{i}"
+  | .data (some e) n i => s!"{side}d:{e.flags.toNat}:{e.len}:{n}:{i}"
+  | .endStream x => s!"{side}s:{hex x}"
+  | .bodyEnd e => s!"{side}e:{errName e}"
+
+/-- the decompressor of the run: a finite table supplied by the harness (real decompressor
+outputs); `"!"` = it failed -/
+def decOf (table : List (String × Bytes × Option Bytes)) (name : String) (payload : Bytes) : Option Bytes :=
+  match table.find? (fun t => t.1 == name && t.2.1 == payload) with
+  | some t => t.2.2
+  | none => none
+
+def decTable (j : Json) : List (String × Bytes × Option Bytes) :=
+  (arr j).map fun row =>
+    match strList row with
+    | [n, p, x] => (n, unhex p, if x == "!" then none else some (unhex x))
+    | _ => ("?", [], none)
+
+/-- configuration of one side from the header fields of the input -/
+def cfgOf (inp : Json) (isReq : Bool) (table : List (String × Bytes × Option Bytes)) : Cfg :=
+  let props := propsFromHeaders (str (field inp "ct")) (str (field inp "ce"))
+  let name := if props.2 == 1 then str (field inp "cce") else if props.2 == 2 then str (field inp "ge") else "?"
+  { isRequest := isReq, isStream := props.1, dec := decOf table name }
+
+/-- the wrapper operations of a reader session: reads, the ending, what follows -/
+def readerOps (reads : List Bytes) (ending : String) (post : List String) : List Op × EndErr :=
+  let datas := reads.map Op.data
+  let endErr : EndErr := match ending with
+    | "eof" | "eofdata" => .nil
+    | "err" | "errdata" | "closeerr" => .inner
+    | _ => .other
+  let readAfter : EndErr := if ending == "err" || ending == "errdata" then .inner else .nil
+  let closeAfter : EndErr := if ending == "closeerr" then .inner else .other
+  let postOps := post.flatMap fun a => if a == "c" then [Op.fin closeAfter] else [Op.data [], Op.fin readAfter]
+  (datas ++ [Op.fin endErr] ++ postOps, endErr)
+
+def stepsOf (j : Json) : List (String × String) := (arr j).map fun s => (str (field s "d"), str (field s "e"))
+
+def tailName : Tail → String
+  | .clean => "clean"
+  | .partialPrefix _ => "partial-prefix"
+  | .partialPayload _ _ => "partial-payload"
+
+/-! ### middleware sessions: both sides of one operation go through one builder -/
+
+/-- what the middleware hands to `builder.add`, in program order -/
+inductive MEv
+  | out (isReq : Bool) (o : Out)
+  | respStart
+  | respErr
+
+def MEv.kind : MEv → Builder.Kind
+  | .out true (.ev (.data _ _)) => .reqData
+  | .out false (.ev (.data _ _)) => .respData
+  | .out _ (.ev (.endStream _)) => .respEos
+  | .out true (.bodyEnd .nil) => .reqEnd
+  | .out true (.bodyEnd _) => .reqEndErr
+  | .out false (.bodyEnd .nil) => .respEnd
+  | .out false (.bodyEnd _) => .respEndErr
+  | .respStart => .respStart
+  | .respErr => .respErr
+
+def renderItem (evs : Array MEv) (it : Builder.Item) : String :=
+  match evs[it.id]? with
+  | some (.out isReq (.ev (.data e n))) => render (if isReq then "q" else "p") (.data e n (it.index.getD 0))
+  | some (.out isReq (.ev (.endStream x))) => render (if isReq then "q" else "p") (.endStream x)
+  | some (.out isReq (.bodyEnd e)) => render (if isReq then "q" else "p") (.bodyEnd e)
+  | some .respStart => "P"
+  | some .respErr => "PX"
+  | none => "?"
+
+/-- run the builder model over the middleware's events (`build`: the server side defers it) -/
+def deliver (evs : List MEv) (build : Bool) : List (List String) :=
+  let ops := evs.zipIdx.map (fun p => Builder.Op.add p.1.kind p.2) ++ (if build then [Builder.Op.build] else [])
+  (Builder.exec (Builder.init true) ops).2.map (·.map (renderItem evs.toArray))
+
+def sideCfg (j : Json) (isReq : Bool) (table : List (String × Bytes × Option Bytes)) : Cfg := cfgOf j isReq table
+
+/-- the scripted inner reader: the steps it returns, in order (`(data, none)` = nil error) -/
+def scriptSteps (reads : List Bytes) (ending : String) : List (Bytes × Option EndErr) :=
+  let ok := reads.map (fun d => (d, (none : Option EndErr)))
+  let e : EndErr := if ending.startsWith "err" then .inner else .nil
+  match ending with
+  | "eof" | "err" => ok ++ [([], some e)]
+  | "eofdata" | "errdata" =>
+    match ok.reverse with
+    | [] => [([], some e)]
+    | (d, _) :: rest => (rest.reverse) ++ [(d, some e)]
+  | _ => ok
+
+/-- events of the complete messages only (a side that was not read to an end) -/
+def unfinishedSpec (c : Cfg) (b : Bytes) : List NEv :=
+  if c.isStream then numberEvs 0 ((parse b).1.flatMap (itemEvents c)) else []
+
+def isPrefixOf (a b : List String) : Bool := a.length ≤ b.length && b.take a.length == a
+
+structure HSt where
+  req : WSt := winit
+  resp : WSt := winit
+  steps : List (Bytes × Option EndErr)
+  after : Option EndErr := none   -- what a Read past the script's end returns
+  reqBytes : Bytes := []
+  reqEnd : Option EndErr := none
+  started : Bool := false
+  written : Bytes := []
+  respEnd : Option EndErr := none
+  evs : List MEv := []
+  panicked : Bool := false
+  -- the first finishing event (request-body error, or the end of the response body) takes the
+  -- trace; which sides had reached their end by then
+  finished : Bool := false
+  reqDoneAtFinish : Bool := false
+  respDoneAtFinish : Bool := false
+
+def hReqOp (cq : Cfg) (h : HSt) (o : Op) : HSt :=
+  let r := wstep cq h.req o
+  let endNow : Option EndErr := match o with
+    | .fin e => if h.req.closed then none else some e
+    | _ => none
+  let h := { h with req := r.1, evs := h.evs ++ r.2.map (MEv.out true),
+                    reqEnd := if h.reqEnd.isSome then h.reqEnd else endNow }
+  match endNow with
+  | some e => if !h.finished && e != .nil then
+      { h with finished := true, reqDoneAtFinish := true, respDoneAtFinish := h.respEnd.isSome } else h
+  | none => h
+
+def hRespOp (cp : Cfg) (h : HSt) (o : Op) : HSt :=
+  let r := wstep cp h.resp o
+  let endNow : Option EndErr := match o with
+    | .fin e => if h.resp.closed then none else some e
+    | _ => none
+  let h := { h with resp := r.1, evs := h.evs ++ r.2.map (MEv.out false),
+                    respEnd := if h.respEnd.isSome then h.respEnd else endNow }
+  match endNow with
+  | some _ => if !h.finished then
+      { h with finished := true, respDoneAtFinish := true, reqDoneAtFinish := h.reqEnd.isSome } else h
+  | none => h
+
+def hStart (h : HSt) : HSt := if h.started then h else { h with started := true, evs := h.evs ++ [MEv.respStart] }
+
+/-- one action of the scripted handler -/
+def hAction (cq cp : Cfg) (accept : Int) (h : HSt) (a : Json) : HSt :=
+  if h.panicked then h else
+  match str (field a "k") with
+  | "read" =>
+    let (d, e, rest, after) := match h.steps with
+      | (d, e) :: rest => (d, e, rest, if e.isSome then e else h.after)
+      | [] => (([] : Bytes), some (h.after.getD .nil), ([] : List (Bytes × Option EndErr)), h.after)
+    let h := { h with steps := rest, after := after, reqBytes := if h.reqEnd.isSome then h.reqBytes else h.reqBytes ++ d }
+    let h := hReqOp cq h (.data d)
+    match e with
+    | some e => hReqOp cq h (.fin e)
+    | none => h
+  | "closeReq" => hReqOp cq h (.fin .other)
+  | "wh" => hStart h
+  | "w" =>
+    let d := unhex (str (field a "d"))
+    let h := hStart h
+    let room : Nat := if accept < 0 then d.length else (accept.toNat - h.written.length)
+    let n := min d.length room
+    let h := { h with written := h.written ++ d.take n }
+    let h := hRespOp cp h (.data (d.take n))
+    if n < d.length then hRespOp cp h (.fin .inner) else h
+  | "panic" => { h with panicked := true }
+  | _ => h
+
+/-- the whole server-side session: actions, then the deferred `tryFinish` -/
+def hRun (cq cp : Cfg) (accept : Int) (steps : List (Bytes × Option EndErr)) (actions : List Json) : HSt :=
+  let h := actions.foldl (hAction cq cp accept) { steps := steps }
+  let h := hStart h
+  hRespOp cp h (.fin (if h.panicked then .other else .nil))
+
+/-- per-side projection of an observed trace against the specification: a side that had
+reached its end when the trace was taken must show exactly its specified events; the other side
+a prefix of the events of its complete messages -/
+def projOk (side : String) (c : Cfg) (bytes : Bytes) (ended : Option EndErr) (doneAtFinish : Bool)
+    (events : List String) : Bool :=
+  let mine := events.filter (fun (e : String) => e.startsWith side && e.length > 1)
+  match doneAtFinish, ended with
+  | true, some e =>
+    mine == (specTrace c bytes e).map (render side) || mine == (specTraceAlt c bytes e).map (render side)
+  | _, _ => isPrefixOf mine ((unfinishedSpec c bytes).map (render side))
+
+/-- the response start precedes every response-body event and occurs at most once -/
+def startOk (events : List String) : Bool :=
+  (events.filter (· == "P")).length ≤ 1 &&
+  match events.findIdx? (fun e => e.startsWith "p") with
+  | some i => (events.take i).contains "P"
+  | none => true
+
+def handle : Handler := fun op inp impl =>
+  -- bodies on which a reused decompressor instance differs from a fresh one are outside the
+  -- hypotheses (the decompressor is a function of the payload); they are counted, not judged
+  if bool (field impl "skip") then
+    { agree := true, holds := true, nontrivial := false, cls := "set-aside:decompressor-reuse-sensitive" } else
+  match op with
+  | "trace" =>
+    if !(isNull (field impl "panic")) then
+      { agree := false, holds := false, why := "panic: " ++ str (field impl "panic") } else
+    let isReq := str (field inp "side") == "req"
+    let side := if isReq then "q" else "p"
+    let reads := (strList (field inp "reads")).map unhex
+    let ending := str (field inp "ending")
+    let post := strList (field inp "post")
+    let c := cfgOf inp isReq (decTable (field impl "dec"))
+    let (ops, endErr) := readerOps reads ending post
+    let body := reads.flatten
+    -- implementation's observations
+    let implEvents := (strList (field impl "events")).filter (· != "Q")
+    let seen := stepsOf (field impl "seen")
+    let inner := stepsOf (field impl "inner")
+    let completions := nat (field impl "completions")
+    let done := nat (field impl "done")
+    -- model
+    let mEvents := (observe c ops).map (render side)
+    let mDone := if isReq then 0 else 1
+    -- property: the trace is the specified one; the caller saw what the inner reader returned
+    -- (all bytes of the body, in order); the trace was delivered once
+    let specA := (specTrace c body endErr).map (render side)
+    let specB := (specTraceAlt c body endErr).map (render side)
+    let traceOk := implEvents == specA || implEvents == specB
+    let seenBytes := String.join (seen.map (·.1))
+    let passOk := seen == inner && seenBytes == hex body
+    let holds := traceOk && passOk && completions == 1
+    let p := parse body
+    { agree := implEvents == mEvents && completions == 1 && done == mDone && passOk,
+      holds := holds,
+      nontrivial := c.isStream && reads.length > 1 && (!p.1.isEmpty || p.2 != .clean),
+      model := Json.mkObj [("events", toJson mEvents), ("done", toJson mDone)],
+      cls := (if c.isStream then tailName p.2 else "non-stream") ++
+        (if mEvents.any (·.startsWith "ps:") then "+eos" else ""),
+      why := if holds then "" else
+        (if !traceOk then "trace " ++ toString implEvents ++ " but the body's envelopes give " ++ toString specA
+         else if !passOk then "caller saw " ++ toString seen ++ " but the inner reader returned " ++ toString inner
+         else s!"trace delivered {completions} times") }
+  | "handler" =>
+    let tr := field impl "traced"
+    let pl := field impl "plain"
+    if !(isNull (field impl "panic")) then
+      { agree := false, holds := false, why := "panic: " ++ str (field impl "panic") } else
+    let table := decTable (field impl "dec")
+    let rq := field inp "req"
+    let rp := field inp "resp"
+    let cq := sideCfg rq true table
+    let cp := sideCfg rp false table
+    let accept := int (field inp "accept")
+    let steps := scriptSteps ((strList (field rq "reads")).map unhex) (str (field rq "ending"))
+    let h := hRun cq cp accept steps (arr (field inp "actions"))
+    let mEvents := match deliver h.evs true with | [l] => l | _ => []
+    let implEvents := (strList (field tr "events")).filter (· != "Q")
+    let completions := nat (field tr "completions")
+    -- passthrough: the handler and the underlying writer see the same with and without tracing
+    let same (k : String) : Bool := (field tr k).compress == (field pl k).compress
+    -- (a handler that panics before writing anything: the middleware's deferred tryFinish calls
+    -- WriteHeader(200) on the way out; net/http never sends that header, so it is not compared)
+    let silentPanic := bool (field pl "panicked") && nat (field pl "status") == 0
+    let passOk := same "saw" && same "inner" && (silentPanic || (same "status" && same "headerAtWH")) &&
+      same "written" && same "finalHeader" && same "flushes" && same "panicked"
+    let written := unhex (str (field tr "written"))
+    -- the request side ends the whole trace when it fails
+    let reqFailed := match h.reqEnd with | some .nil => false | some _ => true | none => false
+    let traceOk := projOk "q" cq h.reqBytes h.reqEnd h.reqDoneAtFinish implEvents &&
+      projOk "p" cp written h.respEnd h.respDoneAtFinish implEvents && startOk implEvents
+    let holds := traceOk && passOk && completions == 1
+    { agree := implEvents == mEvents && completions == 1 && passOk && written == h.written,
+      holds := holds, nontrivial := cp.isStream && !written.isEmpty,
+      model := toJson mEvents, cls := if reqFailed then "req-failed" else if h.panicked then "panic" else "",
+      why := if holds then "" else
+        if !traceOk then s!"trace {implEvents} does not match the envelopes of the bodies (request {hex h.reqBytes}, response {hex written})"
+        else if !passOk then "the handler or the underlying writer saw something else with tracing than without"
+        else s!"trace delivered {completions} times" }
+  | "rt" =>
+    if !(isNull (field impl "panic")) then
+      { agree := false, holds := false, why := "panic: " ++ str (field impl "panic") } else
+    let table := decTable (field impl "dec")
+    let rq := field inp "req"
+    let rp := field inp "resp"
+    let cq := sideCfg rq true table
+    let cp := sideCfg rp false table
+    let fail := bool (field inp "fail")
+    let reqReads := (strList (field rq "reads")).map unhex
+    let respReads := (strList (field rp "reads")).map unhex
+    -- the transport reads the request body until an error, then closes it
+    let (reqOps, reqErr) := readerOps reqReads (str (field rq "ending")) ["c"]
+    let (respOps, respErr) := readerOps respReads (str (field rp "ending")) (strList (field rp "post"))
+    let evs := (wrun cq winit reqOps).2.map (MEv.out true) ++
+      (if fail then [MEv.respErr] else MEv.respStart :: (wrun cp winit respOps).2.map (MEv.out false))
+    let mEvents := match deliver evs false with | [l] => l | _ => []
+    let implEvents := (strList (field impl "events")).filter (· != "Q")
+    let completions := nat (field impl "completions")
+    let reqFailed := reqErr != .nil
+    let hdrs := (["Connect-Content-Encoding=" ++ str (field rp "cce"), "Content-Encoding=" ++ str (field rp "ce"),
+      "Content-Type=" ++ str (field rp "ct"), "Grpc-Encoding=" ++ str (field rp "ge")]).filter (fun s => !s.endsWith "=")
+    let passOk := (field impl "transportSaw").compress == (field impl "reqInner").compress &&
+      (field impl "callerSaw").compress == (field impl "respInner").compress &&
+      String.join ((stepsOf (field impl "transportSaw")).map (·.1)) == hex reqReads.flatten &&
+      bool (field impl "sameErr") && str (field impl "err") == (if fail then "inner" else "nil") &&
+      (fail || (nat (field impl "status") == nat (field inp "status") && strList (field impl "respHeader") == hdrs &&
+        String.join ((stepsOf (field impl "callerSaw")).map (·.1)) == hex respReads.flatten))
+    let traceOk := projOk "q" cq reqReads.flatten (some reqErr) true implEvents &&
+      (if fail then (implEvents.filter (·.startsWith "p")).isEmpty && (reqFailed || implEvents.contains "PX")
+       else projOk "p" cp respReads.flatten (some respErr) (!reqFailed) implEvents && startOk implEvents)
+    let holds := traceOk && passOk && completions == 1
+    { agree := implEvents == mEvents && completions == 1 && passOk, holds := holds,
+      nontrivial := (cq.isStream || cp.isStream) && !fail, model := toJson mEvents,
+      cls := if reqFailed then "req-failed" else if fail then "transport-error" else "",
+      why := if holds then "" else
+        if !traceOk then s!"trace {implEvents} does not match the envelopes of the bodies"
+        else if !passOk then "the transport or the caller saw something else than the inner bodies / response"
+        else s!"trace delivered {completions} times" }
+  | _ => bad ("C14: unknown op " ++ op)
 
 end ConfModel.Driver.C14
